@@ -2111,7 +2111,7 @@ def check_layout_model(units, tag):
     if rc != 0:
         return 0, ["coqc failed on the layout tie file: " + out[-800:]], out
     model = {}
-    for m in re.finditer(r"@@ (\d+)\s+= \((\d+), (\d+)\)", out):
+    for m in re.finditer(r"@@ (\d+)\s+=\s*\(\s*(\d+),\s*(\d+)\s*\)", out):
         model[terms[int(m.group(1))]] = (int(m.group(2)), int(m.group(3)))
     bad = []
     for term, cname, got, where in obs:
@@ -2350,8 +2350,8 @@ def check_ownership_model(units, tag, limit=120):
                 if depth == 0 and cut is None:
                     cut = pos + 1
         a, b = txt[:cut], txt[cut:]
-        pa = [(int(x), int(y)) for x, y in re.findall(r"\((\d+),\s*(\d+)\)", a)]
-        pb = [(int(x), int(y)) for x, y in re.findall(r"\((\d+),\s*(\d+)\)", b)]
+        pa = [(int(x), int(y)) for x, y in re.findall(r"\(\s*(\d+),\s*(\d+)\s*\)", a)]
+        pb = [(int(x), int(y)) for x, y in re.findall(r"\(\s*(\d+),\s*(\d+)\s*\)", b)]
         got[int(chunks[j])] = (pa, pb)
     for i, (t, v, allocs, where) in enumerate(cases):
         exp = [tuple(int(x) for x in a.split(":")) for a in allocs]
